@@ -129,7 +129,7 @@ class Project:
     def __init__(self, pid):
         self.id = str(pid); self.mode = 0; self.trailing = True; self.recursive = False; self.threads = 4
         self.base = "/"; self.cwd = None; self.inputs = []; self.files = []; self.dirs = []; self.links = []
-        self.cmds = []; self.sched = None; self.pp = None
+        self.cmds = []; self.sched = None; self.pp = None; self.permissive = False
     def copy(self):
         import copy; return copy.deepcopy(self)
     def text(self):
@@ -138,10 +138,16 @@ class Project:
              "b " + hx(self.base)]
         if self.cwd is not None: L.append("w " + hx(self.cwd))
         for i in self.inputs: L.append("i " + hx(i))
-        for d in self.dirs: L.append("d " + hx(d))
+        alld = set()
+        for q in list(self.dirs) + [f for f, _ in self.files] + [l for l, _ in self.links]:
+            parts = [x for x in q.split("/") if x]
+            if q in self.dirs: alld.add("/" + "/".join(parts))
+            for i in range(1, len(parts)): alld.add("/" + "/".join(parts[:i]))
+        for d in sorted(alld): L.append("d " + hx(d))
         for (p, c) in self.files: L.append("f %s %s" % (hx(p), hx(c)))
         for (l, t) in self.links: L.append("l %s %s" % (hx(l), hx(t)))
         for (c, st, out) in self.cmds: L.append("c %s %d %s" % (hx(c), st, hx(out)))
+        if self.permissive: L.append("o 1")
         if self.sched is not None: L.append("s " + " ".join(str(x) for x in self.sched))
         if self.pp is not None: L.append("p %s %d" % (hx(self.pp[0]), int(self.pp[1])))
         L.append("E")
@@ -195,3 +201,39 @@ def write_replay(pid, obj):
     path = os.path.join(d, h + ".json")
     with open(path, "w") as f: f.write(blob)
     return path
+
+# ---------------------------------------------------------------- the command oracle
+_CMD_CACHE = {}
+def eval_command(cmd):
+    """(status, stdout) of `sh -c cmd` in an empty scratch directory; @M@ is a scratch marker directory.
+    Only for the pure command family of the generators (DESIGN.md D4)."""
+    if cmd in _CMD_CACHE: return _CMD_CACHE[cmd]
+    import tempfile
+    d = tempfile.mkdtemp(prefix="vp-orc-", dir=os.environ.get("VP_TMP", "/dev/shm"))
+    try:
+        os.makedirs(os.path.join(d, "m")); os.makedirs(os.path.join(d, "w"))
+        real = cmd.replace("@M@", os.path.join(d, "m")).replace("@R@", os.path.join(d, "w"))
+        env = dict(os.environ); env["TXTPP_FILE"] = "oracle"
+        r = subprocess.run(["sh", "-c", real], cwd=os.path.join(d, "w"), stdout=subprocess.PIPE, stderr=subprocess.DEVNULL,
+                           stdin=subprocess.DEVNULL, timeout=20, env=env)
+        res = (0 if r.returncode == 0 else 1, r.stdout if r.returncode == 0 else b"")
+    finally:
+        shutil.rmtree(d, ignore_errors=True)
+    _CMD_CACHE[cmd] = res
+    return res
+
+BUILTIN_CMDS = ("pwd -P", 'printf %s "$TXTPP_FILE"')
+
+def complete_oracles(projects):
+    """phase 1: run the model with a permissive oracle to learn which command strings the sources really
+    contain (continuation lines can extend a command); evaluate each once with sh; fill in p.cmds."""
+    todo = [p for p in projects]
+    for p in todo: p.permissive = True; p.cmds = []
+    outs = run_model([p.text() for p in todo])
+    for p, o in zip(todo, outs):
+        p.permissive = False
+        cmds = []
+        for e in parse_obs(o)["C"]:
+            c = unhx(e.split("@")[0]).decode("utf-8", "replace")
+            if c not in cmds and c not in BUILTIN_CMDS: cmds.append(c)
+        p.cmds = [(c,) + eval_command(c) for c in cmds]
